@@ -1,16 +1,16 @@
 SPECIFICATION Spec
 CONSTANTS
-  MaxH = 2
+  MaxH = 1
   MaxR = 1
   NN0 = 2
   T100 = 1000
   Facts = {"A", "B"}
   MaxOps = 2
   StartAll = TRUE
+  StartSuf = {TRUE}
   EvpAny = FALSE
   WithSetLast = FALSE
   Guard = "filter"
 VIEW View
-
 PROPERTIES MoveOK
 CHECK_DEADLOCK FALSE
